@@ -569,6 +569,26 @@ impl Branches<'_> {
     }
 }
 
+/// Verification hooks: a [`BranchLocation`] from its parts (the type's module is private) and the
+/// private [`Branches::get_cleanup_path`].
+#[cfg(lancedb_lance_verif)]
+pub fn verif_branch_location(path: &str, uri: &str, branch: Option<String>) -> Result<BranchLocation> {
+    Ok(BranchLocation {
+        path: Path::parse(path)?,
+        uri: uri.to_string(),
+        branch,
+    })
+}
+
+#[cfg(lancedb_lance_verif)]
+pub fn verif_get_cleanup_path(
+    branch: &str,
+    remaining_branches: &[&str],
+    base_location: &BranchLocation,
+) -> Result<Option<Path>> {
+    Branches::get_cleanup_path(branch, remaining_branches, base_location)
+}
+
 #[derive(Debug, Clone, Serialize, Deserialize)]
 #[serde(rename_all = "camelCase")]
 pub struct TagContents {
